@@ -64,6 +64,7 @@ class ProofInj:
     text: str
     src: str
     raw: bool = False
+    label: str = ''       # `proof [Cxx.name] ...`: a witness step of that labelled obligation (its failure counts as the obligation's)
 
 
 @dataclass
@@ -284,11 +285,11 @@ class ContractSet:
             if s in ('body-start', 'body-end') and cur_loop is not None:
                 txt, j = self._take_block(sect, j, src)
                 getattr(cur_loop, s.replace('-', '_')).append((txt, src)); cur_list = None; continue
-            m = re.match(r'^(?:proof|ghost)\s+(body-start|fn-end|before|after|tail|after-write)(?:\s+"((?:[^"\\]|\\.)*)")?(?:\s+#(\d+))?$', s)
+            m = re.match(r'^(?:proof|ghost)(?:\s+\[([^\]]+)\])?\s+(body-start|fn-end|before|after|tail|after-write)(?:\s+"((?:[^"\\]|\\.)*)")?(?:\s+#(\d+))?$', s)
             if m:
                 txt, j = self._take_block(sect, j, src)
-                anchor = (m.group(2) or '').replace('\\"', '"')
-                fc.proofs.append(ProofInj(m.group(1), anchor, int(m.group(3) or 1), txt, src, raw=s.startswith('ghost')))
+                anchor = (m.group(3) or '').replace('\\"', '"')
+                fc.proofs.append(ProofInj(m.group(2), anchor, int(m.group(4) or 1), txt, src, raw=s.startswith('ghost'), label=m.group(1) or ''))
                 cur_list = None; continue
             m = re.match(r'^outline\s+"((?:[^"\\]|\\.)*)"\s+"((?:[^"\\]|\\.)*)"(?:\s+sha256\s+(\w+))?$', s)
             if m:
